@@ -1,5 +1,7 @@
 package main
 
+import "fmt"
+
 // Compact, harness-owned schemas: one per built-in format, multi-record inputs, every record
 // addressed only through its own data, one numeric cast so that a record can fail on its own.
 
@@ -87,5 +89,109 @@ func miniSamples() []Sample {
 		{"mini/edi", "edi", []byte(miniEDI), []byte(miniEDIInput)},
 		{"mini/json", "json", []byte(miniJSON), []byte(miniJSONInput)},
 		{"mini/xml", "xml", []byte(miniXML), []byte(miniXMLInput)},
+	}
+}
+
+// Generated inputs whose multi-line records straddle the readers' buffer boundaries (bufio 4096, EDI scanner 128..64K).
+
+const genFixed2Rows = `{
+ "parser_settings": {"version": "omni.2.1", "file_format_type": "fixedlength2"},
+ "file_declaration": {"envelopes": [{"name": "R", "rows": 3, "columns": [
+   {"name": "l1", "start_pos": 1, "length": 700, "line_index": 1},
+   {"name": "l2", "start_pos": 1, "length": 700, "line_index": 2},
+   {"name": "l3", "start_pos": 1, "length": 700, "line_index": 3}]}]},
+ "transform_declarations": {"FINAL_OUTPUT": {"object": {"l1": {"xpath": "l1"}, "l2": {"xpath": "l2"}, "l3": {"xpath": "l3"}}}}
+}`
+
+const genFixed2HF = `{
+ "parser_settings": {"version": "omni.2.1", "file_format_type": "fixedlength2"},
+ "file_declaration": {"envelopes": [{"name": "R", "header": "^H", "footer": "^F", "columns": [
+   {"name": "h", "start_pos": 1, "length": 700, "line_pattern": "^H"},
+   {"name": "d", "start_pos": 1, "length": 700, "line_pattern": "^D"},
+   {"name": "f", "start_pos": 1, "length": 700, "line_pattern": "^F"}]}]},
+ "transform_declarations": {"FINAL_OUTPUT": {"object": {"h": {"xpath": "h"}, "d": {"xpath": "d"}, "f": {"xpath": "f"}}}}
+}`
+
+const genFixedLegacyRows = `{
+ "parser_settings": {"version": "omni.2.1", "file_format_type": "fixed-length"},
+ "file_declaration": {"envelopes": [{"by_rows": 3, "columns": [
+   {"name": "l1", "start_pos": 1, "length": 700, "line_pattern": "^H"},
+   {"name": "l2", "start_pos": 1, "length": 700, "line_pattern": "^D"},
+   {"name": "l3", "start_pos": 1, "length": 700, "line_pattern": "^F"}]}]},
+ "transform_declarations": {"FINAL_OUTPUT": {"object": {"l1": {"xpath": "l1"}, "l2": {"xpath": "l2"}, "l3": {"xpath": "l3"}}}}
+}`
+
+const genCSV2Rows = `{
+ "parser_settings": {"version": "omni.2.1", "file_format_type": "csv2"},
+ "file_declaration": {"delimiter": ",", "records": [{"name": "R", "rows": 3, "columns": [
+   {"name": "a", "index": 2, "line_index": 1}, {"name": "b", "index": 2, "line_index": 2}, {"name": "c", "index": 2, "line_index": 3}]}]},
+ "transform_declarations": {"FINAL_OUTPUT": {"object": {"a": {"xpath": "a"}, "b": {"xpath": "b"}, "c": {"xpath": "c"}}}}
+}`
+
+func genLines(prefixes []string, recs, width int) string {
+	var sb []byte
+	for r := 0; r < recs; r++ {
+		for li, p := range prefixes {
+			line := []byte(p)
+			for len(line) < width+(r*7+li*13)%41 {
+				line = append(line, byte('a'+(len(line)*7+r*3+li)%26))
+			}
+			sb = append(sb, line...)
+			if r%2 == 0 {
+				sb = append(sb, '\r')
+			}
+			sb = append(sb, '\n')
+		}
+	}
+	return string(sb)
+}
+
+func genCSVLines(recs, width int) string {
+	var sb []byte
+	for r := 0; r < recs; r++ {
+		for li := 0; li < 3; li++ {
+			sb = append(sb, fmt.Sprintf("k%d,\"", li)...)
+			for n := 0; n < width+(r*5+li*11)%37; n++ {
+				c := byte('a' + (n*5+r+li)%26)
+				if n%97 == 13 {
+					sb = append(sb, '"', '"')
+					continue
+				}
+				if n%131 == 17 {
+					c = ','
+				}
+				sb = append(sb, c)
+			}
+			sb = append(sb, '"', '\n')
+		}
+	}
+	return string(sb)
+}
+
+func genEDILong(segs, width int) string {
+	var sb []byte
+	for s := 0; s < segs; s++ {
+		sb = append(sb, "HDR*"...)
+		for n := 0; n < width*(1+s%5); n++ {
+			c := byte('a' + (n*3+s)%26)
+			if n%53 == 7 {
+				sb = append(sb, '?', '~')
+				continue
+			}
+			sb = append(sb, c)
+		}
+		sb = append(sb, fmt.Sprintf("*%d~\n", s)...)
+		sb = append(sb, fmt.Sprintf("ITM*s%d:x%d~\n", s, s)...)
+	}
+	return string(sb)
+}
+
+func generatedSamples() []Sample {
+	return []Sample{
+		{"gen/fixedlength2-rows", "fixedlength2", []byte(genFixed2Rows), []byte(genLines([]string{"H", "D", "F"}, 9, 600))},
+		{"gen/fixedlength2-headerfooter", "fixedlength2", []byte(genFixed2HF), []byte(genLines([]string{"H", "D", "F"}, 9, 600))},
+		{"gen/fixedlength-rows", "fixedlength", []byte(genFixedLegacyRows), []byte(genLines([]string{"H", "D", "F"}, 9, 600))},
+		{"gen/csv2-rows", "csv2", []byte(genCSV2Rows), []byte(genCSVLines(8, 500))},
+		{"gen/edi-long", "edi", []byte(miniEDI), []byte(genEDILong(12, 90))},
 	}
 }
